@@ -16,6 +16,18 @@ package roothash
 //@   ensures err != nil ==> result0 == nil
 //@   ensures err == nil ==> result0 != nil && result0.Runtime != nil
 
+//@ import "github.com/oasisprotocol/oasis-core/go/roothash/api/commitment"
+
+//@ func Application.executorCommit
+//@   props C11
+//@   requires app != nil && ctx != nil && state != nil && cc != nil
+//@   assumes forall e commitment.ECT :: commitment.GPooled[e] ==> allocated(e)
+//@   assume-pre commitment\.(VerifyExecutorCommitment|Pool\.AddVerifiedExecutorCommitment)$
+//@   loop 2 invariant forall e commitment.ECT :: commitment.GPooled[e] ==> allocated(e)
+//@   precall commitment\.Pool\)\.AddVerifiedExecutorCommitment$ :: !commitment.GPooled[argAs[*commitment.ExecutorCommitment](1)]
+//@   precall commitment\.VerifyExecutorCommitment$ :: !commitment.GPooled[argAs[*commitment.ExecutorCommitment](4)]
+//@   note the pool KEEPS the pointer it is given (the scheduler's proposal is sc.Commitment): every commitment of a batched transaction is handed to the pool as its own object, never one that was handed over before - otherwise a later commitment of the same transaction overwrites the stored proposal while the votes stay, and the round finalizes on a result nobody voted for (seed C11_j hoisted the loop variable out of the loop). Assumed: objects a pool holds are allocated (they exist)
+
 //@ func Application.submitMsg
 //@   props C08
 //@   requires app != nil && ctx != nil && state != nil && msg != nil
